@@ -145,6 +145,11 @@ Proof. vm_compute. reflexivity. Qed.
     # squares and cubes of units related by a ratio that is not a power of two (span = 7 cubit), asked for after the same powers were refused
     # against an unrelated unit of the dimension: digit for digit what a fresh process answers
     pw = [["unit", "length"], ["unit", "length"], ["unit", "length"], ["equals", 1, 1, ["int", "7", "1"], 0, 1]]
+    # ... and against base units declared directly in the derived dimensions (an area unit that is no length squared, a volume unit)
+    pw += [["unit", "area"], ["unit", "volume"]]
+    for (e_, k_) in ((2, 3), (3, 4)):
+        pw += [["query", "in_unit", ["int", "49", "1"], 0, e_, k_, 1], ["query", "eq", ["int", "1", "1"], 0, e_, k_, 1], ["query", "in_unit", ["int", "1", "1"], k_, 1, 1, e_],
+               ["query", "lt", ["int", "1", "1"], 1, e_, k_, 1]]
     for e_ in (2, 3, -2):
         pw += [["query", "in_unit", ["int", "49", "1"], 0, e_, 2, e_], ["query", "eq", ["int", "49", "1"], 0, e_, 2, e_], ["query", "in_unit", ["int", "49", "1"], 2, e_, 1, e_]]
     for e_ in (2, 3, -2, 1):
